@@ -31,15 +31,9 @@ package actor
 
 //@ func (Processer).Send(target, msg, sender)
 //@   abstract
-//@   modifies heap except private
+//@   modifies
 //@   emits ProcSend(self, target, msg, sender)
 
-// Boundary of the remote package: handing a decoded message to the local
-// engine. Trusted here (assumed: returns normally, writes nothing the stream
-// reader reads again); its own behaviour is the subject of C01/C09.
-//@ func (*Engine).SendLocal(pid, msg, sender)
-//@   trusted
-//@   modifies
 
 // Publishing an event: one Broadcast entry in the effect log (the routing of
 // the event to the stream actor is C09/C12).
@@ -54,13 +48,13 @@ package actor
 // lock was acquired: every critical section is one atomic transition of the
 // abstract map.
 
-//@ private H$actor.Registry, H$actor.process, H$actor.Context, H$actor.Inbox, H$actor.Engine, H$actor.PID
+//@ private H$actor.Registry, H$actor.process, H$actor.Context, H$actor.Inbox, H$actor.Engine, H$actor.PID, E$S$actor.Envelope, E$Ref
 
 //@ guarded Registry(r) by mu footprint r.lookup, mapof(r.lookup)
 //@ lockinv[C10.inv] r.lookup != nil
 
 //@ func (*Registry).add(proc)
-//@   props C10
+//@   props C10 C04
 //@   requires r != nil && r.engine != nil && !isnil(proc)
 //@   atunlock[C10.add.dup-untouched] old(has(r.lookup, pidof(proc).ID)) ==> forallS("Str", id, has(r.lookup, id) == old(has(r.lookup, id)) && r.lookup[id] == old(r.lookup[id]))
 //@   atunlock[C10.add.insert-dom] !old(has(r.lookup, pidof(proc).ID)) ==> forallS("Str", id, has(r.lookup, id) == (old(has(r.lookup, id)) || id == pidof(proc).ID))
@@ -68,18 +62,23 @@ package actor
 //@   atunlock[C10.add.insert-kept] !old(has(r.lookup, pidof(proc).ID)) ==> forallS("Str", id, id != pidof(proc).ID ==> r.lookup[id] == old(r.lookup[id]))
 //@   ghost at mapupdate#1: emit RegAdd(r, key, value)
 //@   atunlock[C10.add.regadd-iff] (old(has(r.lookup, pidof(proc).ID)) ==> loglen == entry(loglen)) && (!old(has(r.lookup, pidof(proc).ID)) ==> loglen == entry(loglen) + 1 && log[entry(loglen)] == RegAdd(r, pidof(proc).ID, proc))
+//@   ensures[C04.add.registered-then-started-synchronously] !old(has(r.lookup, pidof(proc).ID)) ==> loglen == entry(loglen) + 2 && log[entry(loglen)] == RegAdd(r, pidof(proc).ID, proc) && log[entry(loglen) + 1] == ProcStart(proc)
 //@   ensures[C10.add.dup-event] old(has(r.lookup, pidof(proc).ID)) ==> loglen == entry(loglen) + 1 && log[entry(loglen)] == Broadcast(r.engine, ActorDuplicateIdEvent{PID: pidof(proc)})
 //@   ensures[C10.add.winner-started] !old(has(r.lookup, pidof(proc).ID)) ==> loglen == entry(loglen) + 2 && log[entry(loglen)] == RegAdd(r, pidof(proc).ID, proc) && log[entry(loglen) + 1] == ProcStart(proc)
 
 //@ func (*Registry).Remove(pid)
 //@   props C10
 //@   requires r != nil && pid != nil
+//@   modifies mapof(r.lookup)
+//@   ghost at call delete#1: emit RegRemove(r, pid.ID)
+//@   emits RegRemove(r, pid.ID)
 //@   atunlock[C10.remove.only] forallS("Str", id, has(r.lookup, id) == (old(has(r.lookup, id)) && id != pid.ID))
 //@   atunlock[C10.remove.kept] forallS("Str", id, r.lookup[id] == old(r.lookup[id]))
 
 //@ func (*Registry).get(pid)
 //@   props C10
 //@   requires r != nil
+//@   modifies
 //@   ensures[C10.get.nil] pid == nil ==> isnil(result)
 //@   ensures[C10.get.hit] pid != nil && old(has(r.lookup, pid.ID)) ==> result == old(r.lookup[pid.ID])
 //@   ensures[C10.get.miss] pid != nil && !old(has(r.lookup, pid.ID)) ==> isnil(result)
@@ -87,12 +86,14 @@ package actor
 //@ func (*Registry).getByID(id)
 //@   props C10
 //@   requires r != nil
+//@   modifies
 //@   ensures[C10.getbyid.hit] old(has(r.lookup, id)) ==> result == old(r.lookup[id])
 //@   ensures[C10.getbyid.miss] !old(has(r.lookup, id)) ==> isnil(result)
 
 //@ func (*Registry).GetPID(kind, id)
 //@   props C10
 //@   requires r != nil
+//@   modifies
 //@   ghost at call getByID#1 before: assert[C10.getpid.key] arg1 == kind + pidSeparator + id
 //@   ghost at call getByID#1: got = result
 //@   ensures[C10.getpid.hit] !isnil(got) ==> result == pidof(got)
@@ -114,3 +115,440 @@ package actor
 //@   ghost at call add#1 before: assert[C10.spawnproc.add] arg0 == e.Registry && arg1 == p
 //@   ensures[C10.spawnproc.pid] result == pidof(p)
 //@   ensures[C10.spawnproc.effects] (loglen == entry(loglen) + 2 && log[entry(loglen)] == RegAdd(e.Registry, pidof(p).ID, p) && log[entry(loglen) + 1] == ProcStart(p)) || (loglen == entry(loglen) + 1 && log[entry(loglen)] == Broadcast(e.Registry.engine, ActorDuplicateIdEvent{PID: pidof(p)}))
+
+// ---------------------------------------------------------------------------
+// Middleware (C13). wrap(mw, f) names the function a middleware returns for f;
+// mwchain(r, A, o, n, i) is the right fold of the middleware slice (backing
+// array A, offset o, length n) from position i around the receiver function r:
+//   mwchain(r, .., i) = r                                  if i >= n
+//                     = wrap(A[o+i], mwchain(r, .., i+1))   otherwise
+// so chainOf(r, mws) has mws[0] outermost and r innermost, each applied once.
+// The recursive definition is only ever instantiated by explicit `unfold`.
+
+//@ ghost func wrap(Ref, Ref) Ref
+//@ ghost func mwchain(Ref, (Array Int Ref), Int, Int, Int) Ref
+//@ ghost def mwchain(r, A, o, n, i) := ite(i >= n, r, wrap(A[sidx(o, i)], mwchain(r, A, o, n, i + 1)))
+//@ axiom[mwchain.base] forallS("Ref", r, forallS("(Array Int Ref)", A, forall(o, n, mwchain(r, A, o, n, n) == r, mwchain(r, A, o, n, n))))
+//@ pred chainOf(r, mws) := mwchain(r, elems(mws), mws.off, len(mws), 0)
+
+// A middleware applied to a receive function: assumed to run no engine code,
+// not to panic, and to return a non-nil function (named wrap(mw, next)).
+//@ functype MiddlewareFunc(next)
+//@   pure
+//@   ensures result == wrap(self, next) && result != nil
+
+//@ func applyMiddleware(rcv, middleware)
+//@   props C13
+//@   requires rcv != nil && forall(k, 0 <= k && k < len(middleware) ==> middleware[k] != nil)
+//@   modifies
+//@   ensures[C13.apply.fold] result == chainOf(rcv, middleware)
+//@   ensures[C13.apply.nonnil] result != nil
+//@   ghost at call middleware[i]#1 before: unfold mwchain(entry(rcv), elems(middleware), middleware.off, len(middleware), i)
+//@   loop 1
+//@     invariant[C13.apply.inv] -1 <= i && i < len(middleware) && rcv != nil && rcv == mwchain(entry(rcv), elems(middleware), middleware.off, len(middleware), i + 1)
+//@     decreases i + 1
+
+// ---------------------------------------------------------------------------
+// The process core (C04 C05 C06 C07 C13 C01): Start, Invoke, invokeMsg,
+// tryRestart, cleanup. These functions run thread-confined (on the inbox worker
+// or, for the first Start, on the spawning goroutine; that confinement is the
+// subject of C02 and is assumed here). Ghost state:
+//   curproc  the process whose method is being verified
+//   phase    protocol state of curproc's current incarnation (the receiver
+//            returned by the latest Producer call):
+//            0 produced, 1 Initialized delivered, 2 Started delivered,
+//            3 Stopped delivered / no live incarnation
+// The lifecycle protocol (C04), "pills are private" (C07) and "every delivery
+// goes through the middleware chain" (C13) are preconditions of the one
+// boundary through which a receiver is ever invoked: a call of a ReceiveFunc
+// value or of Receiver.Receive.
+
+//@ event Deliver(fn Ref, ctx Ref as *Context, msg Iface, sender Ref as *PID)
+//@ event Produce(p Ref as *process)
+//@ event Cancel(f Ref)
+//@ event InboxStart(in Iface, proc Iface)
+//@ event InboxStop(in Iface)
+//@ event InboxSend(in Iface, msg Iface, sender Ref as *PID)
+//@ event RegRemove(r Ref, id Str)
+//@ event PoisonSent(e Ref, pid Ref as *PID, ctx Iface)
+//@ event Waited(ch Ref)
+//@ event ChildUnlink(m Ref, id Str)
+
+//@ ghost var curproc Ref as *process
+//@ ghost var phase Int
+
+//@ pred procInv(p) := p != nil && p.Opts.Producer != nil && p.context != nil && p.context.engine != nil && p.context.engine.Registry != nil && p.context.engine.Registry.engine != nil &&
+//@      !isnil(p.inbox) && p.context.children != nil && p.pid != nil && p.context.pid == p.pid &&
+//@      forall(k, 0 <= k && k < len(p.Opts.Middleware) ==> p.Opts.Middleware[k] != nil)
+//@ pred throughChain(fnv, c) := c == curproc.context && fnv == chainOf(boundmethod(c.receiver, "Receive"), curproc.Opts.Middleware)
+//@ pred isLifecycle(m) := istype(m, Initialized) || istype(m, Started) || istype(m, Stopped)
+//@ pred phaseAfter(m, ph) := ite(istype(m, Initialized), 1, ite(istype(m, Started), 2, ite(istype(m, Stopped), 3, ph)))
+
+// A receive function value invoked with a context: user code. It may panic
+// (except when handling Stopped: assumption), may call the exported API, and
+// cannot write the engine's private fields.
+//@ functype ReceiveFunc(c)
+//@   requires[C13.delivery.through-chain] throughChain(self, c)
+//@   requires[C07.pill.private] !istype(c.message, poisonPill)
+//@   requires[C04.protocol.initialized-first] istype(c.message, Initialized) ==> phase == 0
+//@   requires[C04.protocol.started-second] istype(c.message, Started) ==> phase == 1
+//@   requires[C04.protocol.stopped-once] istype(c.message, Stopped) && !afterCrash ==> phase == 1 || phase == 2
+//@   requires[C04.protocol.stopped-once@max-restarts-exceeded] istype(c.message, Stopped) && afterCrash ==> phase == 1 || phase == 2
+//@   requires[C04.protocol.user-after-started] !isLifecycle(c.message) ==> phase == 2
+//@   modifies heap except private, phase
+//@   maypanic
+//@   emits Deliver(self, c, c.message, c.sender)
+//@   ensures phase == phaseAfter(c.message, old(phase))
+//@   ensures_panic phase == phaseAfter(c.message, old(phase)) && !istype(c.message, Stopped) && !(istype(panicval, *InternalError) && panicval.(*InternalError) == nil)
+
+//@ func (Receiver).Receive(c)
+//@   abstract
+//@   requires[C13.delivery.through-chain] throughChain(boundmethod(self, "Receive"), c)
+//@   requires[C07.pill.private] !istype(c.message, poisonPill)
+//@   requires[C04.protocol.initialized-first] istype(c.message, Initialized) ==> phase == 0
+//@   requires[C04.protocol.started-second] istype(c.message, Started) ==> phase == 1
+//@   requires[C04.protocol.stopped-once] istype(c.message, Stopped) && !afterCrash ==> phase == 1 || phase == 2
+//@   requires[C04.protocol.stopped-once@max-restarts-exceeded] istype(c.message, Stopped) && afterCrash ==> phase == 1 || phase == 2
+//@   requires[C04.protocol.user-after-started] !isLifecycle(c.message) ==> phase == 2
+//@   modifies heap except private, phase
+//@   maypanic
+//@   emits Deliver(boundmethod(self, "Receive"), c, c.message, c.sender)
+//@   ensures phase == phaseAfter(c.message, old(phase))
+//@   ensures_panic phase == phaseAfter(c.message, old(phase)) && !istype(c.message, Stopped) && !(istype(panicval, *InternalError) && panicval.(*InternalError) == nil)
+
+// The producer: user code returning a fresh receiver (assumed non-nil, not to
+// panic). A new incarnation may only be produced when the previous one is gone.
+//@ functype Producer()
+//@   requires[C04.produce.previous-stopped] phase == 3
+//@   modifies heap except private, phase
+//@   emits Produce(curproc)
+//@   ensures !isnil(result) && phase == 0
+
+//@ functype context.CancelFunc()
+//@   modifies
+//@   emits Cancel(self)
+
+//@ func (Inboxer).Start(proc)
+//@   abstract
+//@   modifies
+//@   emits InboxStart(self, proc)
+
+//@ func (Inboxer).Stop()
+//@   abstract
+//@   modifies
+//@   emits InboxStop(self)
+
+//@ func (Inboxer).Send(env)
+//@   abstract
+//@   modifies
+//@   emits InboxSend(self, env.Msg, env.Sender)
+
+//@ func (*Engine).Poison(pid)
+//@   trusted
+//@   modifies
+//@   emits_ok PoisonSent(e, pid, result)
+//@   ensures !isnil(result)
+
+//@ func (*Context).Children()
+//@   trusted
+//@   modifies
+//@   ensures fresh(result)
+
+//@ func (*process).cleanup(cancel)
+//@   props C06 C07 C13 C04 C08 C10 C12
+//@   requires procInv(p) && curproc == p && !isnil(p.context.receiver)
+//@   requires[C04.cleanup.live] phase == 1 || phase == 2 || (phase == 3 && afterCrash)
+//@   nopanic[C06.cleanup.nopanic]
+//@   modifies heap except private, p.context.message, phase, log, loglen
+//@   ghost at entry: lb = 0; log0 = log
+//@   ghost at call Delete#1: emit ChildUnlink(arg0, arg1)
+//@   ghost at call Children#1: lb = loglen; log0 = log
+//@   ghost at recv: emit Waited(ch)
+//@   ghost at call Stop#1 before: assert[C08.cleanup.each-child-poisoned-and-awaited] forall(k, 0 <= k && k < len(children) ==> isev(log[lb + 2*k], PoisonSent) && log[lb + 2*k].PoisonSent_pid == children[k] && log[lb + 2*k + 1] == Waited(ctxdone(log[lb + 2*k].PoisonSent_ctx)))
+//@   ensures[C04.cleanup.stopped] phase == 3
+//@   ensures[C07.cleanup.cancel-last] cancel != nil ==> log[loglen - 1] == Cancel(cancel)
+//@   ensures[C12.cleanup.stopped-event] isev(log[loglen - ite(cancel != nil, 1, 0) - 1], Broadcast) && log[loglen - ite(cancel != nil, 1, 0) - 1].Broadcast_e == p.context.engine &&
+//@        istype(log[loglen - ite(cancel != nil, 1, 0) - 1].Broadcast_msg, ActorStoppedEvent) && log[loglen - ite(cancel != nil, 1, 0) - 1].Broadcast_msg.(ActorStoppedEvent).PID == p.pid
+//@   ensures[C04.cleanup.stopped-delivered] isev(log[loglen - ite(cancel != nil, 1, 0) - 2], Deliver) && log[loglen - ite(cancel != nil, 1, 0) - 2].Deliver_ctx == p.context && istype(log[loglen - ite(cancel != nil, 1, 0) - 2].Deliver_msg, Stopped)
+//@   ensures[C10.cleanup.unregistered-after-inbox-stop] log[loglen - ite(cancel != nil, 1, 0) - 3] == RegRemove(p.context.engine.Registry, p.pid.ID)
+//@   ensures[C07.cleanup.inbox-stopped] log[loglen - ite(cancel != nil, 1, 0) - 4] == InboxStop(p.inbox)
+//@   ensures[C08.cleanup.children-first] loglen - ite(cancel != nil, 1, 0) - 4 >= entry(loglen) && forall(k, entry(loglen) <= k && k < loglen - ite(cancel != nil, 1, 0) - 4 ==> isev(log[k], ChildUnlink) || isev(log[k], PoisonSent) || isev(log[k], Waited))
+//@   ensures[C04.cleanup.log-prefix] forall(k, 0 <= k && k < entry(loglen) ==> log[k] == entry(log)[k])
+//@   loop 1
+//@     invariant rangeindex >= -1 && rangeindex < len(children)
+//@     invariant loglen == lb + 2 * (rangeindex + 1) && lb >= entry(loglen)
+//@     invariant forall(k, 0 <= k && k < lb ==> log[k] == log0[k])
+//@     invariant forall(k, 0 <= k && k < entry(loglen) ==> log0[k] == entry(log)[k])
+//@     invariant forall(k, entry(loglen) <= k && k < lb ==> isev(log0[k], ChildUnlink))
+//@     invariant forall(k, lb <= k && k < loglen ==> isev(log[k], PoisonSent) || isev(log[k], Waited))
+//@     invariant forall(k, 0 <= k && k <= rangeindex ==> isev(log[lb + 2*k], PoisonSent) && log[lb + 2*k].PoisonSent_pid == children[k] && log[lb + 2*k + 1] == Waited(ctxdone(log[lb + 2*k].PoisonSent_ctx)))
+
+// afterCrash: set (ghost) on the one path where cleanup runs although the
+// current incarnation was already told Stopped by a recover handler (restart
+// budget exhausted). It carves the known double-Stopped defect out of
+// C04.protocol.stopped-once so that any other second Stopped is still reported.
+//@ ghost var afterCrash Bool
+
+//@ pred mbufOK(p) := forall(k, 0 <= k && k < len(p.mbuffer) ==> !isLifecycle(p.mbuffer[k].Msg))
+//@ pred budgetInv(p) := 0 <= p.restarts && p.restarts <= p.Opts.MaxRestarts
+
+//@ func cleanTrace(stack)
+//@   trusted
+//@   pure
+
+//@ func (*process).tryRestart(v)
+//@   props C05 C06 C04 C12
+//@   requires procInv(p) && curproc == p && !isnil(p.context.receiver) && budgetInv(p) && !afterCrash && mbufOK(p)
+//@   requires !(istype(v, *InternalError) && v.(*InternalError) == nil)
+//@   requires[C05.restart.failed-incarnation-stopped] phase == 3
+//@   nopanic[C05.tryrestart.nopanic]
+//@   modifies heap except private, p.context.receiver, p.context.message, p.context.sender, p.mbuffer, p.restarts, phase, log, loglen, afterCrash
+//@   ghost at call cleanup#1 before: afterCrash = true
+//@   ghost at call Start#2 before: assert[C05.restart.counted] p.restarts == entry(p.restarts) + 1
+//@   ghost at call Start#2 before: assert[C12.restart.event] loglen == entry(loglen) + 1 && isev(log[entry(loglen)], Broadcast) && log[entry(loglen)].Broadcast_e == p.context.engine && istype(log[entry(loglen)].Broadcast_msg, ActorRestartedEvent) &&
+//@        log[entry(loglen)].Broadcast_msg.(ActorRestartedEvent).PID == p.pid && log[entry(loglen)].Broadcast_msg.(ActorRestartedEvent).Restarts == p.restarts && log[entry(loglen)].Broadcast_msg.(ActorRestartedEvent).Reason == v
+//@   ensures[C06.budget.bounded] budgetInv(p)
+//@   ensures[C06.budget.restart-only-within] entry(p.restarts) == p.Opts.MaxRestarts && !istype(v, *InternalError) ==> p.restarts == entry(p.restarts) && forall(k, entry(loglen) <= k && k < loglen ==> !isev(log[k], Produce) && !isev(log[k], InboxStart))
+//@   ensures[C06.exhaust.event] entry(p.restarts) == p.Opts.MaxRestarts && !istype(v, *InternalError) ==> isev(log[entry(loglen)], Broadcast) && log[entry(loglen)].Broadcast_e == p.context.engine &&
+//@        istype(log[entry(loglen)].Broadcast_msg, ActorMaxRestartsExceededEvent) && log[entry(loglen)].Broadcast_msg.(ActorMaxRestartsExceededEvent).PID == p.pid
+//@   ensures[C06.exhaust.stopped-unregistered] entry(p.restarts) == p.Opts.MaxRestarts && !istype(v, *InternalError) ==> phase == 3 && log[loglen - 3] == RegRemove(p.context.engine.Registry, p.pid.ID) && log[loglen - 4] == InboxStop(p.inbox)
+//@   ensures[C04.tryrestart.phase] phase == 2 || phase == 3
+//@   ensures phase == 2 ==> !afterCrash
+//@   ensures !isnil(p.context.receiver) && procInv(p)
+//@   ensures[C04.tryrestart.log-prefix] loglen >= entry(loglen) && forall(k, 0 <= k && k < entry(loglen) ==> log[k] == entry(log)[k])
+
+//@ func (*process).Start()
+//@   props C04 C05 C13 C12 C06
+//@   requires procInv(p) && curproc == p && budgetInv(p) && !afterCrash && mbufOK(p)
+//@   requires[C04.start.no-live-incarnation] phase == 3
+//@   nopanic[C05.start.nopanic]
+//@   modifies heap except private, p.context.receiver, p.context.message, p.context.sender, p.mbuffer, p.restarts, phase, log, loglen, afterCrash
+//@   ghost at entry: replayed = false; replayedAll = false
+//@   ghost at call Invoke#1 before: replayedAll = arg1 == old(p.mbuffer) && arg0 == p && phase == 2
+//@   ghost at call Invoke#1: replayed = true
+//@   ghost at call len#1 before: assert[C04.start.sequence] phase == 2 && loglen == entry(loglen) + 5 && log[entry(loglen)] == Produce(p) &&
+//@        isev(log[entry(loglen) + 1], Deliver) && log[entry(loglen) + 1].Deliver_ctx == p.context && istype(log[entry(loglen) + 1].Deliver_msg, Initialized) &&
+//@        isev(log[entry(loglen) + 3], Deliver) && log[entry(loglen) + 3].Deliver_ctx == p.context && istype(log[entry(loglen) + 3].Deliver_msg, Started)
+//@   ghost at call len#1 before: assert[C12.start.lifecycle-events] isev(log[entry(loglen) + 2], Broadcast) && log[entry(loglen) + 2].Broadcast_e == p.context.engine && istype(log[entry(loglen) + 2].Broadcast_msg, ActorInitializedEvent) &&
+//@        log[entry(loglen) + 2].Broadcast_msg.(ActorInitializedEvent).PID == p.pid && isev(log[entry(loglen) + 4], Broadcast) && log[entry(loglen) + 4].Broadcast_e == p.context.engine &&
+//@        istype(log[entry(loglen) + 4].Broadcast_msg, ActorStartedEvent) && log[entry(loglen) + 4].Broadcast_msg.(ActorStartedEvent).PID == p.pid
+//@   ghost at call Start#1 before: assert[C05.start.replay-before-open] old(len(p.mbuffer)) > 0 ==> replayed && replayedAll
+//@   ghost at call Start#1 before: assert[C05.start.buffer-cleared] len(p.mbuffer) == 0
+//@   ghost at call Start#1: assert[C04.start.inbox-opened-last] log[loglen - 1] == InboxStart(p.inbox, p)
+//@   ghost at call Start#1 before: assert[C04.inbox.opened-only-for-live-actor] !replayed ==> phase == 2
+//@   ghost at call Start#1 before: assert[C04.inbox.opened-only-for-live-actor@after-replay] replayed ==> phase == 2
+//@   ensures[C04.start.phase] phase == 2 || phase == 3
+//@   ensures phase == 2 ==> !afterCrash
+//@   ensures[C06.budget.bounded] budgetInv(p)
+//@   ensures !isnil(p.context.receiver) && procInv(p)
+//@   ensures[C04.start.produce-first] loglen > entry(loglen) && log[entry(loglen)] == Produce(p)
+//@   ensures[C04.start.log-prefix] forall(k, 0 <= k && k < entry(loglen) ==> log[k] == entry(log)[k])
+
+//@ func (*process).Start$1()
+//@   inline
+
+//@ pred isPill(m) := istype(m, poisonPill)
+//@ pred deliveryOf(p, m, snd) := Deliver(chainOf(boundmethod(p.context.receiver, "Receive"), p.Opts.Middleware), p.context, m, snd)
+
+//@ func (*process).invokeMsg(msg)
+//@   props C01 C13 C07
+//@   requires procInv(p) && curproc == p && !isnil(p.context.receiver) && !afterCrash
+//@   requires[C04.invokemsg.started] !isPill(msg.Msg) ==> phase == 2
+//@   requires !isLifecycle(msg.Msg)
+//@   maypanic
+//@   modifies heap except private, p.context.message, p.context.sender, phase
+//@   emits deliveryOf(p, msg.Msg, msg.Sender) if !isPill(msg.Msg)
+//@   ensures[C01.invokemsg.context] !isPill(msg.Msg) ==> phase == 2
+//@   ensures isPill(msg.Msg) ==> phase == old(phase) && p.context.message == old(p.context.message) && p.context.sender == old(p.context.sender)
+//@   ensures_panic !isPill(msg.Msg) && phase == 2 && !(istype(panicval, *InternalError) && panicval.(*InternalError) == nil)
+//@   ghost at call applyMiddleware()#1 before: assert[C01.invokemsg.context] p.context.message == msg.Msg && p.context.sender == msg.Sender
+//@   ghost at call Receive#1 before: assert[C01.invokemsg.context] p.context.message == msg.Msg && p.context.sender == msg.Sender
+
+//@ func (*process).Invoke(msgs)
+//@   props C01 C05 C07 C04 C13 C06
+//@   requires procInv(p) && curproc == p && !isnil(p.context.receiver) && budgetInv(p) && !afterCrash
+//@   requires[C04.invoke.started] phase == 2
+//@   requires forall(k, 0 <= k && k < len(msgs) ==> !isLifecycle(msgs[k].Msg))
+//@   nopanic[C05.invoke.nopanic]
+//@   modifies heap except private, p.context.receiver, p.context.message, p.context.sender, p.mbuffer, p.restarts, phase, log, loglen, afterCrash
+//@   ensures[C04.invoke.phase] phase == 2 || phase == 3
+//@   ensures phase == 2 ==> !afterCrash
+//@   ensures[C06.budget.bounded] budgetInv(p)
+//@   ensures !isnil(p.context.receiver) && procInv(p)
+//@   ensures[C04.invoke.log-prefix] loglen >= entry(loglen) && forall(k, 0 <= k && k < entry(loglen) ==> log[k] == entry(log)[k])
+//@   ghost at entry: inDrain = false; drainIdx = 0; pillIdx = 0
+//@   ghost at call invokeMsg#2 before: inDrain = true; drainIdx = processed + rangeindex; pillIdx = processed
+//@   ghost at return#2: assert[C01.invoke.order] loglen == entry(loglen) + len(msgs) && forall(k, 0 <= k && k < len(msgs) ==> log[entry(loglen) + k] == deliveryOf(p, msgs[k].Msg, msgs[k].Sender))
+//@   ghost at call cleanup#1 before: assert[C07.pill.messages-before-it-first] loglen >= entry(loglen) + i && forall(k, 0 <= k && k < i ==> log[entry(loglen) + k] == deliveryOf(p, msgs[k].Msg, msgs[k].Sender))
+//@   ghost at call cleanup#1 before: assert[C07.stop.immediate] !pill.graceful ==> loglen == entry(loglen) + i
+//@   ghost at call cleanup#1 before: assert[C07.pill.every-cancel@later-pill-in-batch] forall(k, i < k && k < len(msgs) ==> !isPill(msgs[k].Msg))
+//@   ghost at return#3: assert[C07.pill.cancelled-last] pill.cancel != nil ==> log[loglen - 1] == Cancel(pill.cancel)
+//@   ghost at return#3: assert[C07.pill.stopped-unregistered-before-cancel] phase == 3 && log[loglen - ite(pill.cancel != nil, 1, 0) - 3] == RegRemove(p.context.engine.Registry, p.pid.ID) &&
+//@        isev(log[loglen - ite(pill.cancel != nil, 1, 0) - 2], Deliver) && istype(log[loglen - ite(pill.cancel != nil, 1, 0) - 2].Deliver_msg, Stopped)
+//@   loop 1
+//@     invariant 0 <= i && i <= len(msgs) && nproc == i && processed == i && nmsg == len(msgs)
+//@     invariant phase == 2 && !afterCrash && procInv(p) && curproc == p && !isnil(p.context.receiver) && budgetInv(p) && p.context.receiver == old(p.context.receiver)
+//@     invariant forall(k, 0 <= k && k < len(msgs) ==> msgs[k] == old(msgs[k]))
+//@     invariant loglen == entry(loglen) + i
+//@     invariant forall(k, 0 <= k && k < i ==> log[entry(loglen) + k] == deliveryOf(p, msgs[k].Msg, msgs[k].Sender))
+//@     invariant forall(k, 0 <= k && k < entry(loglen) ==> log[k] == entry(log)[k])
+//@     invariant forall(k, 0 <= k && k < i ==> !isPill(msgs[k].Msg))
+//@     modifies p.context.message, p.context.sender, p.context.receiver, p.mbuffer, p.restarts, none(E$S$actor.Envelope)
+//@   loop 2
+//@     invariant rangeindex >= -1 && rangeindex < len(msgsToProcess) && len(msgsToProcess) == len(msgs) - processed && msgsToProcess.arr == msgs.arr && msgsToProcess.off == msgs.off + processed
+//@     invariant 0 <= i && i < len(msgs) && nproc == i + 1 && processed == i && nmsg == len(msgs) && isPill(msgs[i].Msg) && msg == msgs[i] && pill == msg.Msg.(poisonPill)
+//@     invariant phase == 2 && !afterCrash && procInv(p) && curproc == p && !isnil(p.context.receiver) && budgetInv(p) && p.context.receiver == old(p.context.receiver)
+//@     invariant forall(k, 0 <= k && k < len(msgs) ==> msgs[k] == old(msgs[k]))
+//@     invariant loglen >= entry(loglen) + i
+//@     invariant forall(k, 0 <= k && k < i ==> log[entry(loglen) + k] == deliveryOf(p, msgs[k].Msg, msgs[k].Sender))
+//@     invariant forall(k, 0 <= k && k < entry(loglen) ==> log[k] == entry(log)[k])
+//@     invariant forall(j, 0 <= j && j < len(msgsToProcess) ==> msgsToProcess[j] == msgs[processed + j])
+//@     modifies p.context.message, p.context.sender, p.context.receiver, p.mbuffer, p.restarts, none(E$S$actor.Envelope)
+
+//@ func (*process).Invoke$1()
+//@   inline
+//@   ghost at call tryRestart#1 before: assert[C05.crash.buffer] len(p.mbuffer) == nmsg - nproc && forall(j, 0 <= j && j < nmsg - nproc ==> p.mbuffer[j] == msgs[nproc + j])
+//@   ghost at call tryRestart#1 before: assert[C05.crash.failed-not-redelivered] !inDrain ==> loglen == entry(loglen) + nproc + 1 && forall(k, 0 <= k && k < nproc ==> log[entry(loglen) + k] == deliveryOf(p, msgs[k].Msg, msgs[k].Sender))
+//@   ghost at call tryRestart#1 before: assert[C05.crash.failed-not-redelivered@while-draining-behind-pill] inDrain ==> nproc == drainIdx + 1
+//@   ghost at call tryRestart#1 before: assert[C07.pill.every-cancel@crash-while-draining-behind-it] inDrain ==> nproc <= pillIdx
+//@   ghost at call tryRestart#1 before: assert[C05.crash.stopped-to-failed] phase == 3 && isev(log[loglen - 1], Deliver) && log[loglen - 1].Deliver_ctx == p.context && istype(log[loglen - 1].Deliver_msg, Stopped)
+//@   loop 1
+//@     invariant 0 <= i && i <= nmsg - nproc && len(p.mbuffer) == nmsg - nproc && fresh(p.mbuffer) && p.mbuffer.off == 0
+//@     invariant forall(j, 0 <= j && j < i ==> p.mbuffer[j] == msgs[j + nproc])
+//@     modifies elements(p.mbuffer)
+
+
+// ---------------------------------------------------------------------------
+// The send path (C01 C09 C07 C11 C12 C17). sentLocal(.., k): what SendLocal
+// appends at log position k: either the dead letter for exactly this
+// (target, message, sender), or exactly one Send of exactly these values to a
+// registered processer. Which of the two depends on the registry at the moment
+// of the lookup (Registry.get's own contract, C10).
+
+//@ event RemoteSend(r Iface, pid Ref as *PID, msg Iface, sender Ref as *PID)
+
+//@ pred sentLocal(e, pid, msg, sender, k) := log[k] == Broadcast(e, DeadLetterEvent{Target: pid, Message: msg, Sender: sender}) ||
+//@      (isev(log[k], ProcSend) && !isnil(log[k].ProcSend_proc) && log[k].ProcSend_target == pid && log[k].ProcSend_msg == msg && log[k].ProcSend_sender == sender)
+//@ pred sendEffect(e, pid, msg, sender, k0, k1) := (pid == nil ==> k1 == k0) && (pid != nil ==> k1 == k0 + 1) &&
+//@      (pid != nil && e.address == pid.Address ==> sentLocal(e, pid, msg, sender, k0)) &&
+//@      (pid != nil && e.address != pid.Address && isnil(e.remote) ==> log[k0] == Broadcast(e, EngineRemoteMissingEvent{Target: pid, Sender: sender, Message: msg})) &&
+//@      (pid != nil && e.address != pid.Address && !isnil(e.remote) ==> log[k0] == RemoteSend(e.remote, pid, msg, sender))
+//@ pred logPrefix(k0) := forall(k, 0 <= k && k < k0 ==> log[k] == entry(log)[k])
+//@ pred engInv(e) := e != nil && e.Registry != nil && e.Registry.engine != nil
+
+//@ func (Remoter).Send(pid, msg, sender)
+//@   abstract
+//@   modifies
+//@   emits RemoteSend(self, pid, msg, sender)
+
+//@ func (*Engine).isLocalMessage(pid)
+//@   props C01 C09
+//@   requires e != nil
+//@   pure
+//@   ensures[C01.islocal.def] result == (pid != nil && e.address == pid.Address)
+
+//@ func (*Engine).SendLocal(pid, msg, sender)
+//@   props C01 C09 C16
+//@   requires engInv(e)
+//@   nopanic[C09.sendlocal.nopanic]
+//@   modifies log, loglen
+//@   ghost at call get#1 before: assert[C01.sendlocal.lookup-target] arg0 == e.Registry && arg1 == pid
+//@   ghost at call get#1: got = result
+//@   ghost at return#1: assert[C09.deadletter.once] isnil(got) && loglen == entry(loglen) + 1 && log[entry(loglen)] == Broadcast(e, DeadLetterEvent{Target: pid, Message: msg, Sender: sender})
+//@   ghost at return#2: assert[C01.sendlocal.once] !isnil(got) && loglen == entry(loglen) + 1 && log[entry(loglen)] == ProcSend(got, pid, msg, sender)
+//@   ensures[C01.sendlocal.effect] loglen == entry(loglen) + 1 && sentLocal(e, pid, msg, sender, entry(loglen)) && logPrefix(entry(loglen))
+
+//@ func (*Engine).send(pid, msg, sender)
+//@   props C01 C09 C17
+//@   requires engInv(e)
+//@   nopanic[C09.send.nopanic]
+//@   modifies log, loglen
+//@   ensures[C09.send.nil-is-noop] pid == nil ==> loglen == entry(loglen)
+//@   ensures[C01.send.local-route] pid != nil && e.address == pid.Address ==> loglen == entry(loglen) + 1 && sentLocal(e, pid, msg, sender, entry(loglen))
+//@   ensures[C09.send.remote-missing] pid != nil && e.address != pid.Address && isnil(e.remote) ==> loglen == entry(loglen) + 1 && log[entry(loglen)] == Broadcast(e, EngineRemoteMissingEvent{Target: pid, Sender: sender, Message: msg})
+//@   ensures[C17.send.remote-route] pid != nil && e.address != pid.Address && !isnil(e.remote) ==> loglen == entry(loglen) + 1 && log[entry(loglen)] == RemoteSend(e.remote, pid, msg, sender)
+//@   ensures[C01.send.log-prefix] logPrefix(entry(loglen))
+
+//@ func (*Engine).Send(pid, msg)
+//@   props C01 C09
+//@   requires engInv(e)
+//@   nopanic[C09.send.nopanic]
+//@   modifies log, loglen
+//@   ensures[C01.send.effect] sendEffect(e, pid, msg, nil, entry(loglen), loglen) && logPrefix(entry(loglen))
+
+//@ func (*Engine).SendWithSender(pid, msg, sender)
+//@   props C01 C09
+//@   requires engInv(e)
+//@   nopanic[C09.send.nopanic]
+//@   modifies log, loglen
+//@   ensures[C01.send.effect] sendEffect(e, pid, msg, sender, entry(loglen), loglen) && logPrefix(entry(loglen))
+
+// A poison pill: unknown PID => dead letter + immediate cancel of the returned
+// context; otherwise the pill (carrying that context's cancel func) goes through
+// SendLocal. ctxcancel(c) names the cancel func of a context made by WithCancel.
+//@ func (*Engine).sendPoisonPill(ctx, graceful, pid)
+//@   props C07 C09
+//@   requires engInv(e)
+//@   nopanic[C07.poison.nopanic]
+//@   modifies log, loglen
+//@   ghost at call get#1: got = result
+//@   ghost at return#1: assert[C07.pill.unknown-pid-cancelled-at-once] isnil(got) && loglen == entry(loglen) + 2 &&
+//@        log[entry(loglen)] == Broadcast(e, DeadLetterEvent{Target: pid, Message: poisonPill{cancel: ctxcancel(result), graceful: graceful}, Sender: nil}) && log[entry(loglen) + 1] == Cancel(ctxcancel(result))
+//@   ghost at return#2: assert[C07.pill.enqueued-once] !isnil(got) && loglen == entry(loglen) + 1 && sentLocal(e, pid, poisonPill{cancel: ctxcancel(result), graceful: graceful}, nil, entry(loglen))
+//@   ensures[C07.poison.ctx] !isnil(result) && logPrefix(entry(loglen)) && loglen >= entry(loglen) + 1
+
+//@ func (*Engine).Stop(pid)
+//@   props C07
+//@   requires engInv(e)
+//@   modifies log, loglen
+//@   ghost at call sendPoisonPill#1 before: assert[C07.stop.not-graceful] arg0 == e && arg2 == false && arg3 == pid
+//@   ensures !isnil(result) && logPrefix(entry(loglen))
+
+// ---------------------------------------------------------------------------
+// From a Processer to the ring and back (C01): process.Send, Inbox.Send,
+// Inbox.run. The interleaving of these with the worker (one worker at a time,
+// no lost wake-up) is the subject of C02/C03 and is not decided here.
+
+//@ event RingPush(rb Ref, msg Iface, sender Ref as *PID)
+//@ event ProcInvoke(proc Iface, msgs Slice)
+
+//@ func (Processer).Invoke(msgs)
+//@   abstract
+//@   modifies heap except H$actor.Inbox$proc H$actor.Inbox$rb H$actor.Inbox$scheduler
+//@   emits ProcInvoke(self, msgs)
+
+//@ func (Scheduler).Schedule(fn)
+//@   abstract
+//@   modifies
+
+//@ func (Scheduler).Throughput()
+//@   abstract
+//@   pure
+
+//@ func (*process).Send(a, msg, sender)
+//@   props C01
+//@   requires p != nil && !isnil(p.inbox)
+//@   modifies
+//@   emits InboxSend(p.inbox, msg, sender)
+
+//@ func (*Inbox).schedule()
+//@   props C01
+//@   requires in != nil && !isnil(in.scheduler)
+//@   modifies in.procStatus
+
+//@ func (*Inbox).Send(msg)
+//@   props C01 C03
+//@   requires in != nil && in.rb != nil && !isnil(in.scheduler)
+//@   modifies in.procStatus, in.rb.content, in.rb.len, in.rb.content.*, elements(in.rb.content.items)
+//@   ghost at call Push#1: emit RingPush(arg0, arg1.Msg, arg1.Sender)
+//@   ghost at call schedule#1 before: assert[C03.send.push-before-schedule] loglen == entry(loglen) + 1
+//@   emits RingPush(in.rb, msg.Msg, msg.Sender)
+
+//@ func (*Inbox).run()
+//@   props C01
+//@   requires in != nil && in.rb != nil && !isnil(in.scheduler) && !isnil(in.proc)
+//@   ghost at call PopN#1 before: assert[C01.run.pops-own-ring] arg0 == in.rb && arg1 >= 1
+//@   ghost at call PopN#1: popped = result0
+//@   ghost at call Invoke#1 before: assert[C01.run.batch-whole-to-own-processer] recv == in.proc && arg0 == popped && len(arg0) > 0
+//@   loop 1
+//@     invariant in.rb != nil && !isnil(in.scheduler) && !isnil(in.proc)
